@@ -10,7 +10,8 @@ from harness.result import CheckResult, attach
 from harness.world import World, candidate_imports, random_world
 
 ASSUMPTIONS = [
-    "domain: layers list existing, pairwise unrelated modules (within and across layers); regex layers are built so "
+    "domain: layers list existing modules (at any depth below the root) that are pairwise unrelated across layers; "
+    "within one layer a listed module may be repeated by one of its own descendants (redundant); regex layers are built so "
     "that they match exactly the intended modules; their match set (re.match) is an input to the specification",
     "the subject layer is never also an object layer",
     "the layer tag shown for a module of a layer the rule does not mention may be that layer or '(no layer)'",
@@ -43,8 +44,22 @@ def rules_for(layer_names, rng=None, max_objs=2):
     return out
 
 
-def partitions(rng, tops, n_layers, kinds="mixed"):
-    """Assign some of the unrelated modules `tops` to n_layers layers (at least one each), others to no layer."""
+def antichain(rng, world, min_size=3):
+    """Pairwise unrelated modules of mixed depths (sub packages and files anywhere below the root), so that a layer may
+    list 'r.a.x' while its package 'r.a' and its sibling 'r.a.y' are in no layer or in another one."""
+    mods = [m for m in world.modules if len(m) >= 2]
+    rng.shuffle(mods)
+    out = []
+    for m in mods:
+        if all(not related(m, o) for o in out):
+            out.append(m)
+    return out if len(out) >= min_size else tops_of(world)
+
+
+def partitions(rng, tops, n_layers, kinds="mixed", world=None):
+    """Assign some of the unrelated modules `tops` to n_layers layers (at least one each), others to no layer.
+    With `world`: a layer may additionally list a descendant of one of its own modules (redundant - a layer is the
+    union of its listed modules and all their descendants)."""
     tops = list(tops)
     rng.shuffle(tops)
     names = ["X", "Y", "Z", "W"][:n_layers]
@@ -55,7 +70,17 @@ def partitions(rng, tops, n_layers, kinds="mixed"):
     for lay in layers:
         lay["kind"] = {"names": "names", "regex": "regex"}.get(kinds) or rng.choice(["names", "regex"])
         lay["as_list"] = rng.random() < 0.7
+        if world is not None and rng.random() < 0.3:
+            below = [m for m in world.modules if any(anc(x, m) and tuple(x) != tuple(m) for x in map(tuple, lay["listed"]))]
+            if below:
+                lay["listed"].insert(rng.randint(0, len(lay["listed"])), rng.choice(below))
     return layers
+
+
+def without_any_on_redundant(rules, layers):
+    redundant = {l["name"] for l in layers
+                 if any(a != b and related(a, b) for a in map(tuple, l["listed"]) for b in map(tuple, l["listed"]))}
+    return [r for r in rules if not (r["any"] and r["sub"] in redundant)]
 
 
 def _episode(rng, world, layer_sets, n_rules=None, laws=True, render="ident"):
@@ -65,6 +90,9 @@ def _episode(rng, world, layer_sets, n_rules=None, laws=True, render="ident"):
     for layers in layer_sets:
         names = [l["name"] for l in layers]
         rules = rules_for(names)
+        # 'any layer' is 'except the subject layer itself'; as for module rules (Trace_Rules, law 'any') that has no
+        # documented meaning for a subject that lists a module together with one of its own sub modules
+        rules = without_any_on_redundant(rules, layers)
         if n_rules is not None and len(rules) > n_rules:
             rules = rng.sample(rules, n_rules)
         for r in rules:
@@ -109,7 +137,7 @@ def _intra_episode(rng, w, layers):
     e = rng.choice(cand)
     items = [{"op": "addimport", "a": 0, "a2": 1, "e": [list(e[0]), list(e[1])]}]
     names = [l["name"] for l in layers]
-    for k, r in enumerate(rules_for(names)):
+    for k, r in enumerate(without_any_on_redundant(rules_for(names), layers)):
         items.append({"op": "leval", "a": 0, "rid": f"R{k}", "layers": layers, "rule": r})
         items.append({"op": "leval", "a": 1, "rid": f"R{k}", "layers": layers, "rule": r})
         items.append({"op": "law", "law": "intra", "as": [0, 1], "rids": [f"R{k}", f"R{k}"]})
@@ -143,12 +171,13 @@ def specs_for(ctx):
     made = 0
     while made < n_worlds:
         w = random_world(rng, n_modules=rng.randint(8, 24), n_imports=rng.randint(4, 50))
-        tops = tops_of(w)
+        tops = tops_of(w) if rng.random() < 0.5 else antichain(rng, w)
         if len(tops) < 3:
             continue
         made += 1
         n = rng.randint(2, min(4, len(tops)))
-        layers = partitions(rng, tops, n, kinds=rng.choice(["names", "regex", "mixed"]))
+        layers = partitions(rng, tops, n, kinds=rng.choice(["names", "regex", "mixed"]),
+                            world=w if rng.random() < 0.5 else None)
         # names as they are, or rendered so that siblings are string prefixes / substrings of one another
         specs.append(_episode(rng, w, [layers], n_rules=36, render=rng.choice(["ident", "adv", "adv2"])))
         if made % 3 == 0:
